@@ -114,6 +114,7 @@ func (c *containerServer) handleExecve(cmd *execCmd, msg unixsocket.Msg) error {
 	}
 	// starts the runner, error is handled same as wait4 to make communication equal
 	pid, err := r.Start()
+	verifErr(vpContStarted, err)
 	if err != nil {
 		s := "<nil>"
 		if len(cmd.Argv) > 0 {
@@ -147,11 +148,14 @@ func (c *containerServer) handleExecveStarted(pid int) error {
 	c.waitPid <- pid
 
 	var ret waitPidResult
+	verifPoint(vpContSelect, pid)
 	select {
 	case <-c.done: // socket error happened
+		verifPoint(vpContBrDone, 0)
 		return c.err
 
 	case <-c.recvCh: // kill cmd received
+		verifPoint(vpContBrKill, 0)
 		syscall.Kill(-1, syscall.SIGKILL)
 		ret = <-c.waitPidResult
 		c.waitAll <- struct{}{}
@@ -161,6 +165,7 @@ func (c *containerServer) handleExecveStarted(pid int) error {
 		}
 
 	case ret = <-c.waitPidResult: // child process returned
+		verifPoint(vpContBrExit, 0)
 		syscall.Kill(-1, syscall.SIGKILL)
 		c.waitAll <- struct{}{}
 
